@@ -12,9 +12,11 @@ Variable W H : Z.
 Variable fs : bool.
 Variable tbs : Z -> tabs.
 Variable pvis : Z -> Z.
+Variable wof : list Z -> Z.
 Hypothesis HW : 1 <= W.
 Hypothesis HH : 0 <= H.
 Hypothesis Hpv : forall c a, ahs (tbs c) a = false -> pvis (apen (tbs c) a) = pvis 0.
+Hypothesis Hw32 : wof [32] = 1.
 
 Definition Sync (r : rst) (t : term) : Prop :=
   cx t = fst (rpos r) /\ cy t = snd (rpos r) /\ 0 <= fst (rpos r) <= W - 1 /\ 0 <= snd (rpos r) < Z.max H 1 /\
@@ -22,13 +24,13 @@ Definition Sync (r : rst) (t : term) : Prop :=
   (fs = true -> ralt r = false -> rpos r = (0, 0)) /\
   match rlast r with
   | None => True
-  | Some s => exists cfg, rcfg r = Some cfg /\ rsize r = Some (W, H) /\ wf_screen W H s /\
+  | Some s => exists cfg, rcfg r = Some cfg /\ rsize r = Some (W, H) /\ wf_screen W wof H s /\
                           Shows W (tbs cfg) pvis H t s /\ pen t = 0 /\ aw t = negb fs
   end.
 
 Definition okop (o : op) : Prop :=
   match o with
-  | ORender _ _ W' H' scr => W' = W /\ H' = H /\ wf_screen W H scr
+  | ORender _ _ W' H' scr => W' = W /\ H' = H /\ wf_screen W wof H scr
   | OErase => True
   | OReset => False
   end.
@@ -95,7 +97,7 @@ Definition last2_of (r : rst) (cfg : Z) : option screen :=
   if cfg_eqb (rcfg r) cfg then (if size_eqb (rsize r) W H then rlast r else None) else None.
 
 Lemma render_diff_part : forall r t cfg done scr pos cv td,
-  Sync r t -> wf_screen W H scr ->
+  Sync r t -> wf_screen W wof H scr ->
   screen_diff (tbs cfg) W H fs done scr (last2_of r cfg) (rpos r) None
               (match rsize r with Some (w, _) => w | None => 0 end) (rcv r) = (pos, cv, td) ->
   undef (trun W (trun W t (prologue r)) td) = false /\
@@ -115,7 +117,7 @@ Proof.
   set (tp := trun W t (prologue r)) in *.
   assert (HP : match last2_of r cfg with
                | None => True
-               | Some p => wf_screen W H p /\ Shows W (tbs cfg) pvis H tp p /\ pen tp = 0 /\ (fs = true -> aw tp = false)
+               | Some p => wf_screen W wof H p /\ Shows W (tbs cfg) pvis H tp p /\ pen tp = 0 /\ (fs = true -> aw tp = false)
                end).
   { unfold last2_of. destruct (cfg_eqb (rcfg r) cfg) eqn:E1; [|exact I].
     destruct (size_eqb (rsize r) W H) eqn:E2; [|exact I].
@@ -125,7 +127,7 @@ Proof.
     split; [exact Wp|]. split.
     - intros y x Hy Hx. rewrite G. apply Sp; auto.
     - split; [congruence|]. intros F. rewrite A, Ap, F. reflexivity. }
-  destruct (screen_diff_ok W (tbs cfg) pvis HW (Hpv cfg) H fs done scr (last2_of r cfg) (rpos r) _ (rcv r)
+  destruct (screen_diff_ok W (tbs cfg) pvis wof HW (Hpv cfg) Hw32 H fs done scr (last2_of r cfg) (rpos r) _ (rcv r)
               tp pos cv td HH Ws ltac:(congruence) ltac:(congruence) Cxr (proj1 Cyr) ltac:(congruence)
               ltac:(unfold cvrel in *; destruct (rcv r); congruence) HP D) as (U2 & R & FR & AB & OKD).
   split; [congruence|]. split; [exact R|]. split.
@@ -163,7 +165,7 @@ Definition Final (cfg : Z) (scr : screen) (t : term) : Prop :=
   cx t = scx scr /\ cy t = scy scr /\ Shows W (tbs cfg) pvis H t scr.
 
 Lemma render_notdone : forall r t cfg scr r' ks,
-  Sync r t -> wf_screen W H scr ->
+  Sync r t -> wf_screen W wof H scr ->
   r_render tbs fs r cfg false W H scr = (r', ks) ->
   Sync r' (trun W t ks) /\ Final cfg scr (trun W t ks).
 Proof.
@@ -185,7 +187,7 @@ Qed.
 (* an incremental render (same size, same configuration, previous screen p
    known) leaves every cell below the owned rows untouched *)
 Lemma render_frame : forall r t cfg scr p r' ks,
-  Sync r t -> wf_screen W H scr -> rlast r = Some p -> rcfg r = Some cfg ->
+  Sync r t -> wf_screen W wof H scr -> rlast r = Some p -> rcfg r = Some cfg ->
   r_render tbs fs r cfg false W H scr = (r', ks) ->
   forall y x, Z.max (sh scr) (sh p) <= y -> tgrid (trun W t ks) y x = tgrid t y x.
 Proof.
@@ -203,11 +205,11 @@ Qed.
 Definition DoneState (cfg : Z) (scr : screen) (t : term) : Prop :=
   let cur_h := Z.min (sh scr) H in
   cx t = 0 /\ cy t = cur_h /\ pen t = 0 /\ aw t = true /\ cvis t = true /\ pend t = false /\ undef t = false /\
-  (forall y x, 0 <= y < cur_h -> 0 <= x < W -> shows (tbs cfg) pvis (tgrid t y x) (scell scr y x)) /\
+  (forall y x, 0 <= y < cur_h -> 0 <= x < W -> showsx (tbs cfg) pvis (tgrid t y x) (scell scr y) x) /\
   (forall y x, cur_h <= y -> 0 <= x -> tgrid t y x = blank 0).
 
 Lemma render_done : forall r t cfg scr r' ks,
-  Sync r t -> wf_screen W H scr ->
+  Sync r t -> wf_screen W wof H scr ->
   r_render tbs fs r cfg true W H scr = (r', ks) ->
   DoneState cfg scr (trun W t ks) /\ Sync r' (tshift (trun W t ks) (cy (trun W t ks))).
 Proof.
@@ -272,12 +274,12 @@ Proof.
 Qed.
 
 Lemma render_notdone_final : forall r t cfg scr r' ks,
-  Sync r t -> wf_screen W H scr ->
+  Sync r t -> wf_screen W wof H scr ->
   r_render tbs fs r cfg false W H scr = (r', ks) -> Final cfg scr (trun W t ks).
 Proof. intros r t cfg scr r' ks S Ws R. exact (proj2 (render_notdone r t cfg scr r' ks S Ws R)). Qed.
 
 Lemma render_done_state : forall r t cfg scr r' ks,
-  Sync r t -> wf_screen W H scr ->
+  Sync r t -> wf_screen W wof H scr ->
   r_render tbs fs r cfg true W H scr = (r', ks) -> DoneState cfg scr (trun W t ks).
 Proof. intros r t cfg scr r' ks S Ws R. exact (proj1 (render_done r t cfg scr r' ks S Ws R)). Qed.
 
@@ -294,7 +296,7 @@ Qed.
 (* a non-final render: the cursor never leaves rows 0..H-1, and text / erase-line
    only ever happen in the owned rows 0..max(previous height, new height)-1 *)
 Lemma render_notdone_rows : forall r t cfg scr r' ks,
-  Sync r t -> wf_screen W H scr -> 1 <= H ->
+  Sync r t -> wf_screen W wof H scr -> 1 <= H ->
   r_render tbs fs r cfg false W H scr = (r', ks) ->
   okrun (H - 1) (Z.min (Z.max (sh scr) (prevh r)) H - 1) W t ks.
 Proof.
@@ -305,7 +307,7 @@ Proof.
 Qed.
 
 Lemma render_done_rows : forall r t cfg scr r' ks,
-  Sync r t -> wf_screen W H scr -> 1 <= H ->
+  Sync r t -> wf_screen W wof H scr -> 1 <= H ->
   r_render tbs fs r cfg true W H scr = (r', ks) ->
   okrun (Z.max (H - 1) (Z.min (sh scr) H)) (Z.min (Z.max (sh scr) (prevh r)) H - 1) W t ks.
 Proof.
@@ -323,7 +325,7 @@ Qed.
 
 (* nothing above the origin (the scrollback above an inline prompt) is ever changed *)
 Lemma render_rows_above : forall r t cfg done scr r' ks,
-  Sync r t -> wf_screen W H scr ->
+  Sync r t -> wf_screen W wof H scr ->
   r_render tbs fs r cfg done W H scr = (r', ks) ->
   forall y x, y < 0 -> tgrid (trun W t ks) y x = tgrid t y x.
 Proof.
@@ -344,7 +346,7 @@ Qed.
    does not scroll either (an output filling all H rows ends with one newline
    on the last row: that one scroll is the intended "line below the output") *)
 Lemma render_done_bounded : forall r t cfg scr r' ks n,
-  Sync r t -> wf_screen W H scr -> 1 <= H -> Z.min (sh scr) H <= H - 1 ->
+  Sync r t -> wf_screen W wof H scr -> 1 <= H -> Z.min (sh scr) H <= H - 1 ->
   r_render tbs fs r cfg true W H scr = (r', ks) ->
   trunB H W (t, n) ks = (trun W t ks, n).
 Proof.
@@ -445,14 +447,19 @@ Lemma final_visible_eq : forall cfg scr t1 t2, Final cfg scr t1 -> Final cfg scr
 Proof.
   intros cfg scr t1 t2 (N1 & P1 & U1 & A1 & V1 & X1 & Y1 & S1) (N2 & P2 & U2 & A2 & V2 & X2 & Y2 & S2).
   unfold visible_eq. split; [|repeat (split; [congruence|]); exact U2].
-  intros y x Hy Hx. destruct (S1 y x Hy Hx) as (K1 & G1 & Q1). destruct (S2 y x Hy Hx) as (K2 & G2 & Q2).
-  unfold vcell_eq. split; [congruence|]. split; [congruence|].
-  rewrite G1. destruct (str_eqb (ch (vcell H scr y x)) [32]); congruence.
+  intros y x Hy Hx. pose proof (S1 y x Hy Hx) as A. pose proof (S2 y x Hy Hx) as B.
+  unfold showsx in A, B. unfold vcell_eq.
+  destruct (wd (vcell H scr y x) =? 0).
+  - destruct A as (K1 & G1 & Q1). destruct B as (K2 & G2 & Q2).
+    split; [congruence|]. split; [congruence|]. rewrite G1. cbn [str_eqb]. congruence.
+  - destruct A as (K1 & G1 & Q1). destruct B as (K2 & G2 & Q2).
+    split; [congruence|]. split; [congruence|].
+    rewrite G1. destruct (str_eqb (ch (vcell H scr y x)) [32]); congruence.
 Qed.
 
 Theorem equiv_scratch : forall ops cfg scr r0 t0 r0' t0',
   Sync r0 t0 -> Sync r0' t0' -> rlast r0' = None ->
-  Forall okop ops -> wf_screen W H scr ->
+  Forall okop ops -> wf_screen W wof H scr ->
   visible_eq (snd (run_seq r0 t0 (ops ++ [ORender cfg false W H scr])))
              (snd (run_seq r0' t0' [ORender cfg false W H scr])).
 Proof.
@@ -538,13 +545,85 @@ Qed.
 
 Theorem equiv_scratch_reset : forall ops fresh cfg scr r0 t0 r0' t0',
   Sync r0 t0 -> (fresh = true -> Fresh r0) -> Sync r0' t0' -> rlast r0' = None ->
-  okseq fresh ops -> wf_screen W H scr ->
+  okseq fresh ops -> wf_screen W wof H scr ->
   visible_eq (snd (run_seq r0 t0 (ops ++ [ORender cfg false W H scr])))
              (snd (run_seq r0' t0' [ORender cfg false W H scr])).
 Proof.
   intros ops fresh cfg scr r0 t0 r0' t0' S0 F0 S0' _ O Ws.
   rewrite run_seq_app.
   pose proof (seq_sync_reset ops fresh r0 t0 S0 F0 O) as S1.
+  destruct (run_seq r0 t0 ops) as [r1 t1]. cbn [fst snd] in *.
+  cbn [run_seq r_step].
+  destruct (r_render tbs fs r1 cfg false W H scr) as [ra ka] eqn:Ra.
+  destruct (r_render tbs fs r0' cfg false W H scr) as [rb kb] eqn:Rb.
+  cbn [snd]. unfold t_step; cbn [op_shifts].
+  destruct (render_notdone r1 t1 cfg scr ra ka S1 Ws Ra) as (_ & Fa).
+  destruct (render_notdone r0' t0' cfg scr rb kb S0' Ws Rb) as (_ & Fb).
+  eapply final_visible_eq; eauto.
+Qed.
+
+(* ---- bare reset() away from a fresh state: reset() forgets the last screen
+   and DECLARES the cursor position to be the new origin without moving the
+   cursor.  It keeps renderer and terminal in sync exactly when the cursor is in
+   column 0 (any row: the rows above become scrollback the renderer no longer
+   owns).  With the cursor in another column the next render draws from that
+   column on - the caller's business (run_in_terminal prints a newline first). ---- *)
+Lemma reset_sync_col0 : forall r t r' ks,
+  Sync r t -> fst (rpos r) = 0 -> r_reset r = (r', ks) -> Sync r' (t_step W t OReset ks) /\ Fresh r'.
+Proof.
+  intros r t r' ks (Cx & Cy & Cxr & Cyr & Cp & U & CV & ALT & L) FP R.
+  split; [|eapply reset_fresh; eauto].
+  destruct (reset_run r t r' ks R CV) as ((G & X2 & Y2 & N2 & A2 & P2 & U2) & V2 & CV2 & PS2 & L2 & AL2).
+  unfold t_step; cbn [op_shifts]. unfold Sync. rewrite PS2, L2, CV2.
+  cbn [tshift cx cy pend undef cvis fst snd].
+  split; [congruence|]. split; [lia|]. split; [lia|]. split; [lia|].
+  split; [congruence|]. split; [congruence|]. split; [exact V2|]. split; [auto|exact I].
+Qed.
+
+(* histories where reset() may follow anything that left the cursor in column 0:
+   a final render, an erase, a reset, or a render whose cursor column is 0 *)
+Fixpoint okseq0 (col0 : bool) (ops : list op) : Prop :=
+  match ops with
+  | [] => True
+  | o :: rest =>
+      match o with
+      | ORender _ d _ _ scr => okop o /\ okseq0 (d || (scx scr =? 0)) rest
+      | OErase => okseq0 true rest
+      | OReset => col0 = true /\ okseq0 true rest
+      end
+  end.
+
+Lemma seq_sync_reset0 : forall ops col0 r t,
+  Sync r t -> (col0 = true -> fst (rpos r) = 0) -> okseq0 col0 ops ->
+  Sync (fst (run_seq r t ops)) (snd (run_seq r t ops)).
+Proof.
+  induction ops as [|o ops IH]; intros col0 r t S F O; cbn [run_seq]; [exact S|].
+  destruct (r_step tbs fs r o) as [r' ks] eqn:R. cbn [okseq0] in O.
+  destruct o as [cfg done W' H' scr| |].
+  - destruct O as (OK & O'). pose proof (step_sync r t _ r' ks S OK R) as S'.
+    apply (IH (done || (scx scr =? 0))); [exact S'| |exact O'].
+    intros E. cbn [okop] in OK. destruct OK as (-> & -> & Ws). cbn [r_step] in R.
+    destruct done.
+    + destruct (render_done_fresh r cfg scr r' ks R) as (_ & P). rewrite P. reflexivity.
+    + cbn [orb] in E. apply Z.eqb_eq in E.
+      destruct (render_notdone r t cfg scr r' ks S Ws R) as (S2 & (_ & _ & _ & _ & _ & X & _)).
+      destruct S2 as (Cx & _). congruence.
+  - apply (IH true); [eapply step_sync; eauto; exact I| |exact O].
+    intros _. cbn [r_step] in R. destruct (erase_fresh r r' ks R) as (_ & P). rewrite P. reflexivity.
+  - destruct O as (-> & O'). cbn [r_step] in R.
+    destruct (reset_sync_col0 r t r' ks S (F eq_refl) R) as (S' & (_ & P)).
+    apply (IH true); auto. intros _. rewrite P. reflexivity.
+Qed.
+
+Theorem equiv_scratch_reset0 : forall ops col0 cfg scr r0 t0 r0' t0',
+  Sync r0 t0 -> (col0 = true -> fst (rpos r0) = 0) -> Sync r0' t0' -> rlast r0' = None ->
+  okseq0 col0 ops -> wf_screen W wof H scr ->
+  visible_eq (snd (run_seq r0 t0 (ops ++ [ORender cfg false W H scr])))
+             (snd (run_seq r0' t0' [ORender cfg false W H scr])).
+Proof.
+  intros ops col0 cfg scr r0 t0 r0' t0' S0 F0 S0' _ O Ws.
+  rewrite run_seq_app.
+  pose proof (seq_sync_reset0 ops col0 r0 t0 S0 F0 O) as S1.
   destruct (run_seq r0 t0 ops) as [r1 t1]. cbn [fst snd] in *.
   cbn [run_seq r_step].
   destruct (r_render tbs fs r1 cfg false W H scr) as [ra ka] eqn:Ra.
@@ -569,33 +648,69 @@ Qed.
 
 End Sync.
 
+(* a width function for the examples: "" has width 0, U+754C is wide *)
+Definition wof_ex (g : list Z) : Z :=
+  match g with [] => 0 | [x] => if x =? 30028 then 2 else 1 | _ => 1 end.
+
+(* columns 0..W-1 of concrete rows, case by case *)
+Ltac wrow_cases W1 :=
+  let x := fresh "x" in let Hx := fresh "Hx" in
+  intros x Hx; unfold kind_ok;
+  let rec go k :=
+    (destruct (Z.eq_dec x k) as [->|];
+       [vm_compute; split; [reflexivity|];
+        first [left; split; [reflexivity|discriminate]
+              |right; left; repeat split; first [reflexivity|discriminate|intros Q; discriminate Q]
+              |right; right; repeat split; first [reflexivity|discriminate|intros Q; discriminate Q]]
+       |]) in
+  go 0; try go 1; try go 2; try go 3; try lia.
+
+Ltac wscreen_rows ys :=
+  let y := fresh "y" in
+  intros y; cbn [sget srows];
+  repeat match goal with |- context [?k =? y] => destruct (k =? y) end.
+
 Lemma wf_example :
-  wf_screen 4 2 (mks 2 true 1 1 [(0, [(0, mkc [97] 2 1); (1, mkc [32] 3 1); (2, mkc [32] 0 1)]); (1, [])] []).
+  wf_screen 4 wof_ex 2 (mks 2 true 1 1 [(0, [(0, mkc [97] 2 1); (1, mkc [32] 3 1); (2, mkc [32] 0 1)]); (1, [])] []).
 Proof.
-  unfold wf_screen, nscreen, nrow, ncell; cbn [srows sh scx scy].
-  split; [repeat constructor; discriminate|]. split; [lia|]. split; [|lia].
-  intros y Hy. cbn [sget].
-  destruct (0 =? y) eqn:E0; [apply Z.eqb_eq in E0; lia|].
-  destruct (1 =? y) eqn:E1; [apply Z.eqb_eq in E1; lia|reflexivity].
+  unfold wf_screen; cbn [sh scx scy].
+  split; [|split; [lia|split; [|lia]]].
+  - unfold wscreen, wrow, wrowf. wscreen_rows tt; wrow_cases 4.
+  - intros y Hy. cbn [sget srows].
+    destruct (0 =? y) eqn:E0; [apply Z.eqb_eq in E0; lia|].
+    destruct (1 =? y) eqn:E1; [apply Z.eqb_eq in E1; lia|reflexivity].
+Qed.
+
+(* wide cells: U+754C at columns 1-2 (with its "" shadow cell, whose own style
+   is arbitrary), a narrow cell after it *)
+Lemma wf_example_wide :
+  wf_screen 4 wof_ex 2 (mks 1 true 3 0 [(0, [(0, mkc [97] 2 1); (1, mkc [30028] 3 2); (2, mkc [] 0 0); (3, mkc [98] 2 1)])] []).
+Proof.
+  unfold wf_screen; cbn [sh scx scy].
+  split; [|split; [lia|split; [|lia]]].
+  - unfold wscreen, wrow, wrowf. wscreen_rows tt; wrow_cases 4.
+  - intros y Hy. cbn [sget srows]. destruct (0 =? y) eqn:E0; [apply Z.eqb_eq in E0; lia|reflexivity].
 Qed.
 
 (* a screen taller than the terminal (a float reaching below the last row) is well formed too *)
 Lemma wf_example_tall :
-  wf_screen 4 2 (mks 5 true 0 1 [(0, [(0, mkc [97] 2 1)]); (3, [(1, mkc [98] 0 1)])] []).
+  wf_screen 4 wof_ex 2 (mks 5 true 0 1 [(0, [(0, mkc [97] 2 1)]); (3, [(1, mkc [98] 0 1)])] []).
 Proof.
-  unfold wf_screen, nscreen, nrow, ncell; cbn [srows sh scx scy].
-  split; [repeat constructor; discriminate|]. split; [lia|]. split; [|lia].
-  intros y Hy. cbn [sget].
-  destruct (0 =? y) eqn:E0; [apply Z.eqb_eq in E0; lia|].
-  destruct (3 =? y) eqn:E1; [apply Z.eqb_eq in E1; lia|reflexivity].
+  unfold wf_screen; cbn [sh scx scy].
+  split; [|split; [lia|split; [|lia]]].
+  - unfold wscreen, wrow, wrowf. wscreen_rows tt; wrow_cases 4.
+  - intros y Hy. cbn [sget srows].
+    destruct (0 =? y) eqn:E0; [apply Z.eqb_eq in E0; lia|].
+    destruct (3 =? y) eqn:E1; [apply Z.eqb_eq in E1; lia|reflexivity].
 Qed.
 
 (* cells at column indices >= the terminal width (a float overhanging the right
-   edge) are allowed: wf_screen says nothing about columns *)
+   edge) are allowed: wf_screen constrains the visible columns 0..W-1 only *)
 Lemma wf_example_overhang :
-  wf_screen 2 2 (mks 1 true 1 0 [(0, [(0, mkc [97] 0 1); (1, mkc [98] 0 1); (2, mkc [99] 2 1); (5, mkc [100] 3 1)])] []).
+  wf_screen 2 wof_ex 2 (mks 1 true 1 0 [(0, [(0, mkc [97] 0 1); (1, mkc [98] 0 1); (2, mkc [99] 2 1); (5, mkc [100] 3 1)])] []).
 Proof.
-  unfold wf_screen, nscreen, nrow, ncell; cbn [srows sh scx scy].
-  split; [repeat constructor; discriminate|]. split; [lia|]. split; [|lia].
-  intros y Hy. cbn [sget]. destruct (0 =? y) eqn:E0; [apply Z.eqb_eq in E0; lia|reflexivity].
+  unfold wf_screen; cbn [sh scx scy].
+  split; [|split; [lia|split; [|lia]]].
+  - unfold wscreen, wrow, wrowf. wscreen_rows tt; wrow_cases 2.
+  - intros y Hy. cbn [sget srows]. destruct (0 =? y) eqn:E0; [apply Z.eqb_eq in E0; lia|reflexivity].
 Qed.
